@@ -40,6 +40,7 @@ type Term struct {
 	i    *big.Int
 	s    string
 	name string   // sym / uf name
+	coefs []*big.Int // "lin": coefficient per arg; constant part in i
 	lo   *big.Int // Int interval, nil = unbounded
 	hi   *big.Int
 }
@@ -122,7 +123,16 @@ func TSym(name string, sort Sort) *Term {
 // TSymRange declares an Int symbol with a known interval (the interval is also
 // emitted as an assertion whenever the symbol is declared to a solver).
 func TSymRange(name string, lo, hi *big.Int) *Term {
-	return mk("sym "+name+" Int", func() *Term {
+	ls, hs := "-", "-"
+	if lo != nil {
+		ls = lo.String()
+	}
+	if hi != nil {
+		hs = hi.String()
+	}
+	// the interval is part of the term's identity: the same name may be used with different bounds by
+	// different paths / harnesses, and a stale interval would fold comparisons unsoundly
+	return mk("sym "+name+" Int "+ls+" "+hs, func() *Term {
 		return &Term{op: "sym", sort: SInt, name: name, lo: lo, hi: hi}
 	})
 }
@@ -422,73 +432,132 @@ func Ge(a, b *Term) *Term { return Le(b, a) }
 
 // ---- integer ops (mathematical integers)
 
+// ---- linear normal form: k + c1*a1 + ... + cn*an with atoms sorted by id ("lin" terms)
+
+type linform struct {
+	k     *big.Int
+	atoms []*Term
+	coefs []*big.Int
+}
+
+func toLin(t *Term) linform {
+	switch t.op {
+	case "const":
+		return linform{k: t.i}
+	case "lin":
+		return linform{k: t.i, atoms: t.args, coefs: t.coefs}
+	}
+	return linform{k: bigZero, atoms: []*Term{t}, coefs: []*big.Int{bigOne}}
+}
+
+func linMerge(x, y linform, sy *big.Int) linform {
+	// x + sy*y
+	r := linform{k: new(big.Int).Add(x.k, new(big.Int).Mul(sy, y.k))}
+	i, j := 0, 0
+	for i < len(x.atoms) || j < len(y.atoms) {
+		switch {
+		case j >= len(y.atoms) || (i < len(x.atoms) && x.atoms[i].id < y.atoms[j].id):
+			r.atoms = append(r.atoms, x.atoms[i])
+			r.coefs = append(r.coefs, x.coefs[i])
+			i++
+		case i >= len(x.atoms) || y.atoms[j].id < x.atoms[i].id:
+			c := new(big.Int).Mul(sy, y.coefs[j])
+			if c.Sign() != 0 {
+				r.atoms = append(r.atoms, y.atoms[j])
+				r.coefs = append(r.coefs, c)
+			}
+			j++
+		default:
+			c := new(big.Int).Add(x.coefs[i], new(big.Int).Mul(sy, y.coefs[j]))
+			if c.Sign() != 0 {
+				r.atoms = append(r.atoms, x.atoms[i])
+				r.coefs = append(r.coefs, c)
+			}
+			i++
+			j++
+		}
+	}
+	return r
+}
+
+func linScale(x linform, c *big.Int) linform {
+	if c.Sign() == 0 {
+		return linform{k: bigZero}
+	}
+	r := linform{k: new(big.Int).Mul(x.k, c)}
+	for i := range x.atoms {
+		r.atoms = append(r.atoms, x.atoms[i])
+		r.coefs = append(r.coefs, new(big.Int).Mul(x.coefs[i], c))
+	}
+	return r
+}
+
+func fromLin(l linform) *Term {
+	if len(l.atoms) == 0 {
+		return TInt(l.k)
+	}
+	if len(l.atoms) == 1 && l.k.Sign() == 0 && l.coefs[0].Cmp(bigOne) == 0 {
+		return l.atoms[0]
+	}
+	var sb strings.Builder
+	sb.WriteString("lin ")
+	sb.WriteString(l.k.String())
+	for i, a := range l.atoms {
+		sb.WriteByte(' ')
+		sb.WriteString(l.coefs[i].String())
+		sb.WriteByte('*')
+		sb.WriteString(strconv.Itoa(a.id))
+	}
+	return mk(sb.String(), func() *Term {
+		lo, hi := new(big.Int).Set(l.k), new(big.Int).Set(l.k)
+		for i, a := range l.atoms {
+			c := l.coefs[i]
+			var alo, ahi *big.Int
+			if c.Sign() > 0 {
+				alo, ahi = a.lo, a.hi
+			} else {
+				alo, ahi = a.hi, a.lo
+			}
+			if lo != nil {
+				if alo == nil {
+					lo = nil
+				} else {
+					lo.Add(lo, new(big.Int).Mul(c, alo))
+				}
+			}
+			if hi != nil {
+				if ahi == nil {
+					hi = nil
+				} else {
+					hi.Add(hi, new(big.Int).Mul(c, ahi))
+				}
+			}
+		}
+		return &Term{op: "lin", sort: SInt, args: l.atoms, coefs: l.coefs, i: l.k, lo: lo, hi: hi}
+	})
+}
+
 func Add(a, b *Term) *Term {
 	if a.IsConst() && b.IsConst() {
 		return TInt(new(big.Int).Add(a.i, b.i))
 	}
-	if a.IsConst() && a.i.Sign() == 0 {
-		return b
-	}
-	if b.IsConst() && b.i.Sign() == 0 {
-		return a
-	}
-	// (x + c1) + c2
-	if b.IsConst() && a.op == "+" && a.args[1].IsConst() {
-		return Add(a.args[0], TInt(new(big.Int).Add(a.args[1].i, b.i)))
-	}
-	if a.IsConst() {
-		a, b = b, a
-	}
-	// x + (-x)
-	if b.op == "neg" && b.args[0] == a {
-		return TInt64(0)
-	}
-	if a.op == "neg" && a.args[0] == b {
-		return TInt64(0)
-	}
-	// (x - y) + y
-	if a.op == "-" && a.args[1] == b {
-		return a.args[0]
-	}
-	if b.op == "-" && b.args[1] == a {
-		return b.args[0]
-	}
-	if !b.IsConst() && a.id > b.id {
-		a, b = b, a
-	}
-	return buildI("+", addB(a.lo, b.lo), addB(a.hi, b.hi), a, b)
+	return fromLin(linMerge(toLin(a), toLin(b), bigOne))
 }
+
+var bigMinusOne = big.NewInt(-1)
 
 func Neg(a *Term) *Term {
 	if a.IsConst() {
 		return TInt(new(big.Int).Neg(a.i))
 	}
-	if a.op == "neg" {
-		return a.args[0]
-	}
-	return buildI("neg", negB(a.hi), negB(a.lo), a)
+	return fromLin(linScale(toLin(a), bigMinusOne))
 }
 
 func Sub(a, b *Term) *Term {
 	if a == b {
 		return TInt64(0)
 	}
-	if b.IsConst() {
-		return Add(a, TInt(new(big.Int).Neg(b.i)))
-	}
-	if a.IsConst() && a.i.Sign() == 0 {
-		return Neg(b)
-	}
-	// (x + y) - y
-	if a.op == "+" {
-		if a.args[0] == b {
-			return a.args[1]
-		}
-		if a.args[1] == b {
-			return a.args[0]
-		}
-	}
-	return buildI("-", subB(a.lo, b.hi), subB(a.hi, b.lo), a, b)
+	return fromLin(linMerge(toLin(a), toLin(b), bigMinusOne))
 }
 
 func mulBounds(a, b *Term) (lo, hi *big.Int) {
@@ -524,21 +593,27 @@ func Mul(a, b *Term) *Term {
 		a, b = b, a
 	}
 	if a.IsConst() {
-		if a.i.Sign() == 0 {
-			return TInt64(0)
-		}
-		if a.i.Cmp(bigOne) == 0 {
-			return b
-		}
-		// c1 * (c2 * x)
-		if b.op == "*" && b.args[0].IsConst() {
-			return Mul(TInt(new(big.Int).Mul(a.i, b.args[0].i)), b.args[1])
-		}
-	} else if a.id > b.id {
+		return fromLin(linScale(toLin(b), a.i))
+	}
+	// pull constant factors out of single-atom linear terms: (c*x) * y = c * (x*y)
+	ca, xa := linFactor(a)
+	cb, xb := linFactor(b)
+	if ca.Cmp(bigOne) != 0 || cb.Cmp(bigOne) != 0 {
+		return Mul(TInt(new(big.Int).Mul(ca, cb)), Mul(xa, xb))
+	}
+	if a.id > b.id {
 		a, b = b, a
 	}
 	lo, hi := mulBounds(a, b)
 	return buildI("*", lo, hi, a, b)
+}
+
+// linFactor: if t = c*x (single atom, no constant) returns (c, x), else (1, t).
+func linFactor(t *Term) (*big.Int, *Term) {
+	if t.op == "lin" && len(t.args) == 1 && t.i.Sign() == 0 {
+		return t.coefs[0], t.args[0]
+	}
+	return bigOne, t
 }
 
 // Div is SMT-LIB integer division (floor for positive divisors, Euclidean in general).
@@ -556,12 +631,21 @@ func Div(a, b *Term) *Term {
 		return a
 	}
 	if b.IsConst() && b.i.Sign() > 0 {
-		// (x * c) div c = x ; (c*k * x) div c
-		if a.op == "*" && a.args[0].IsConst() {
-			m := new(big.Int)
-			q, _ := new(big.Int).QuoRem(a.args[0].i, b.i, m)
-			if m.Sign() == 0 {
-				return Mul(TInt(q), a.args[1])
+		// exact division of a linear term whose coefficients and constant are all multiples of c
+		if a.op == "lin" {
+			ok := new(big.Int).Mod(a.i, b.i).Sign() == 0
+			for _, c := range a.coefs {
+				if new(big.Int).Mod(c, b.i).Sign() != 0 {
+					ok = false
+				}
+			}
+			if ok {
+				l := linform{k: new(big.Int).Div(a.i, b.i)}
+				for i, at := range a.args {
+					l.atoms = append(l.atoms, at)
+					l.coefs = append(l.coefs, new(big.Int).Div(a.coefs[i], b.i))
+				}
+				return fromLin(l)
 			}
 		}
 		// (x div c1) div c2 = x div (c1*c2) for positive constants
@@ -774,6 +858,15 @@ func smtInline(t *Term, depth int) string {
 	if depth == 0 {
 		return fmt.Sprintf("#%d", t.id)
 	}
+	if t.op == "lin" {
+		var sb strings.Builder
+		sb.WriteString("(+ " + smtConst(TInt(t.i)))
+		for i, a := range t.args {
+			sb.WriteString(" (* " + smtConst(TInt(t.coefs[i])) + " " + smtInline(a, depth-1) + ")")
+		}
+		sb.WriteByte(')')
+		return sb.String()
+	}
 	var sb strings.Builder
 	sb.WriteByte('(')
 	if t.op == "uf" {
@@ -852,7 +945,17 @@ func (e *Emitter) define(t *Term) {
 		}
 	}
 	var sb strings.Builder
-	if t.op == "uf" && len(t.args) == 0 {
+	if t.op == "lin" {
+		sb.WriteString("(+ " + smtConst(TInt(t.i)))
+		for i, a := range t.args {
+			if t.coefs[i].Cmp(bigOne) == 0 {
+				sb.WriteString(" " + e.ref(a))
+			} else {
+				sb.WriteString(" (* " + smtConst(TInt(t.coefs[i])) + " " + e.ref(a) + ")")
+			}
+		}
+		sb.WriteByte(')')
+	} else if t.op == "uf" && len(t.args) == 0 {
 		sb.WriteString(smtSymName(t.name))
 	} else {
 		sb.WriteByte('(')
@@ -950,12 +1053,12 @@ func rebuild(t *Term, a []*Term) *Term {
 		return Lt(a[0], a[1])
 	case "<=":
 		return Le(a[0], a[1])
-	case "+":
-		return Add(a[0], a[1])
-	case "-":
-		return Sub(a[0], a[1])
-	case "neg":
-		return Neg(a[0])
+	case "lin":
+		r := TInt(t.i)
+		for i := range a {
+			r = Add(r, Mul(TInt(t.coefs[i]), a[i]))
+		}
+		return r
 	case "*":
 		return Mul(a[0], a[1])
 	case "div":
